@@ -23,6 +23,7 @@ func checkC09(w *World, r *Report) {
 	checkC09PathPhase(w, r, "C09.1")
 	checkC09Strip(w, r)
 	checkC09Fallback(w, r)
+	checkNoEmptyCapture(w, r, "C09.4")
 }
 
 // findCalls returns the call expressions to fn name inside the function body.
